@@ -67,6 +67,17 @@ def wrap_shape(e):
         n = _n_minus_1(t)
         if n:
             return ('dec', x, n)
+    # two-sided norm: (X > N-1) ? X-N : ((X < 0) ? X+N : X)
+    if op in ('>', '>=') and f and f[0] == 'q' and t and t[0] == 'b' and t[1] == '-' and pstr(strip(t[2])) == x:
+        c2, t2, f2 = strip(f[1]), strip(f[2]), strip(f[3])
+        n = _n_minus_1(r) if op == '>' else _n(r)
+        n1 = _n(t[3])
+        if c2 and c2[0] == 'b' and c2[1] == '<' and pstr(strip(c2[2])) == x and strip(c2[3])[0] == 'l' and strip(c2[3])[1] == 0 \
+                and t2 and t2[0] == 'b' and t2[1] == '+' and pstr(strip(t2[2])) == x and pstr(f2) == x:
+            n2 = _n(t2[3])
+            if n and n == n1 == n2:
+                return ('norm', x, n)
+            return ('norm-mismatch', x, (n, n1, n2))
     # norm: (X > N-1) ? X-N : X   /  (X >= N) ? X-N : X
     if op in ('>', '>=') and pstr(f) == x and t and t[0] == 'b' and t[1] == '-' and pstr(strip(t[2])) == x:
         n = _n_minus_1(r) if op == '>' else _n(r)
